@@ -37,7 +37,10 @@ impl Ctx {
 }
 
 pub fn profile_name() -> &'static str {
-    if cfg!(debug_assertions) {
+    if !cfg!(feature = "allochook") {
+        // whole-program-optimised probe build (fat LTO, no allocator hook)
+        "lto"
+    } else if cfg!(debug_assertions) {
         "checked"
     } else {
         "plain"
